@@ -239,6 +239,15 @@ class TFailKI(_TOp):
         raise KeyboardInterrupt()
 
 
+class TFailIf(_TOp):
+    """Operation that raises the processor's own error when its parameter `bad` equals "boom" (C09: a failing run)."""
+
+    def _process_logic(self, data, bad="fine"):
+        if bad == "boom":
+            raise VerifProcError("boom")
+        return TData(["failif", data.data, bad])
+
+
 # ---------------------------------------------------------------------------------------------
 # probes
 # ---------------------------------------------------------------------------------------------
